@@ -75,6 +75,35 @@ def run_row(row, tmpdir):
         chk("text-file", lambda: jsonutils.reverse_iter_lines(f, blocksize=bs), True)
     except UnicodeDecodeError:
         pass
+    # other encodings: a text-mode file in a single-byte encoding, and the encoding= argument on binary input
+    if bs in (1, 2):
+        for enc_ in ("latin-1", "cp1252"):
+            try:
+                want_ = [[l.decode(enc_) for l in a] for a in alts]
+            except UnicodeDecodeError:
+                continue
+            for label, mk in (("text-file/" + enc_, lambda: open(path, encoding=enc_, newline="")),
+                              ("BytesIO/encoding=" + enc_, None)):
+                try:
+                    got_ = list(jsonutils.reverse_iter_lines(mk(), blocksize=bs) if mk else
+                                jsonutils.reverse_iter_lines(io.BytesIO(content), blocksize=bs, encoding=enc_))
+                except Exception as ex:
+                    bad.append((label, "raised:" + core.exc_name(ex)))
+                    continue
+                if got_ not in want_:
+                    bad.append((label, [list(x.encode("utf-8")) for x in got_]))
+    # a reader standing in mid-file (preseek=False): the lines of what lies before the cursor
+    if bs in (2, 5) and len(content) > 1 and "pre" in row:
+        for k_, exp_ in row["pre"]:
+            fk = open(path, "rb")
+            fk.seek(k_)
+            try:
+                got_ = list(jsonutils.reverse_iter_lines(fk, blocksize=bs, preseek=False))
+            except Exception as ex:
+                bad.append(("preseek=False@%d" % k_, "raised:" + core.exc_name(ex)))
+                continue
+            if got_ != [bytes(l) for l in exp_] and not (k_ == 0 and got_ in ([], [b""])):
+                bad.append(("preseek=False@%d" % k_, [list(x) for x in got_]))
     # the same content just written through the very file object handed over (opened for update, not flushed by the caller)
     if bs in (1, 3):
         fw = open(os.path.join(tmpdir, "w.bin"), "w+b")
@@ -100,7 +129,8 @@ def jsonl_cases(rng, n, maxlines):
     d = tempfile.mkdtemp(prefix="c19-")
     try:
         for _ in range(n):
-            kinds = [rng.choice(["obj", "obj", "blank", "corrupt", "spaces", "badutf8"]) for _ in range(rng.randint(0, maxlines))]
+            big = _ % 10 == 9          # every tenth file is several blocks long for the shipped block size
+            kinds = [rng.choice(["obj", "obj", "blank", "corrupt", "spaces", "badutf8"]) for _ in range(rng.randint(300, 700) if big else rng.randint(0, maxlines))]
             ignore = rng.random() < 0.6
             if not ignore:
                 kinds = [k for k in kinds if k not in ("corrupt", "badutf8")]
@@ -120,12 +150,13 @@ def jsonl_cases(rng, n, maxlines):
                 else:
                     lines.append('{"broken": ')
             blines = [l if isinstance(l, bytes) else l.encode("utf-8") for l in lines]
-            data = b"\n".join(blines) + (b"\n" if lines and rng.random() < 0.7 else b"")
+            sep_ = rng.choice([b"\n", b"\n", b"\r\n"])
+            data = sep_.join(blines) + (sep_ if lines and rng.random() < 0.7 else b"")
             text = data.decode("utf-8", "backslashreplace")
             path = os.path.join(d, "f.jsonl")
             with open(path, "wb") as f:
                 f.write(data)
-            for mode, bsz in itertools.product(("rb",) if "badutf8" in kinds else ("r", "rb"), (1, 2, 3, 5, 8, 4096)):
+            for mode, bsz in itertools.product(("rb",) if "badutf8" in kinds else ("r", "rb"), (0, 4096) if big else (0, 1, 2, 3, 5, 8, 4096)):
                 runs += 1
                 try:
                     kw = {} if mode == "rb" else {"encoding": "utf-8"}
@@ -134,8 +165,9 @@ def jsonl_cases(rng, n, maxlines):
                     f = open(path, mode, **kw)
                     it = jsonutils.JSONLIterator(f, ignore_errors=ignore, reverse=True)
                     # block size of the reverse reader: rebuild its line iterator with the small block size
-                    it._blocksize = bsz
-                    it._line_iter = jsonutils.reverse_iter_lines(it._file_obj, blocksize=bsz, preseek=False)
+                    if bsz:           # (0: the iterator exactly as the constructor built it)
+                        it._blocksize = bsz
+                        it._line_iter = jsonutils.reverse_iter_lines(it._file_obj, blocksize=bsz, preseek=False)
                     rev = list(it)
                 except Exception as ex:
                     bad.append(({"kinds": kinds, "mode": mode, "blocksize": bsz, "ignore_errors": ignore}, "raised:" + core.exc_name(ex)))
